@@ -29,14 +29,8 @@ open VaxisModel.Lemmas.TermBodyEval VaxisModel.Lemmas.GoInterp
 
 /-- **encodeXterm_body_eq_model**: all keys, all `unicode` oracles, both key modes. -/
 theorem encodeXterm_body_eq_model (u : Uni) (key : Key) (deckpam decckm : Bool) :
-    encodeXtermGen u key deckpam decckm = some (encodeXterm u key deckpam decckm) := by
-  by_cases h0 : key.mods &&& ModShift ||| key.mods &&& ModAlt ||| key.mods &&& ModCtrl = 0
-  · cases deckpam <;> cases decckm
-    · exact encodeXterm_body_plain_false_false u key h0
-    · exact encodeXterm_body_plain_false_true u key h0
-    · exact encodeXterm_body_plain_true_false u key h0
-    · exact encodeXterm_body_plain_true_true u key h0
-  · exact encodeXterm_body_mods u key deckpam decckm h0
+    encodeXtermGen u key deckpam decckm = some (encodeXterm u key deckpam decckm) :=
+  encodeXterm_body u key deckpam decckm
 
 /-- **handleMouse_body_eq_model**: all mode states, all buttons / positions / event types; both
     the bytes `handleMouse` writes itself (alternate scroll) and the string it returns. -/
